@@ -403,3 +403,8 @@ def r9_4(prog, rep, rule="R9.4"):
     f = prog.fn("terms.call_resolver.CallResolver.visitQuotedNameExpr")
     obl(rep, f, f.node, rule, ok, "back-quoted names are stripped by the same [1:-1] where they are resolved and where they are counted",
         str(vals[0]), f"back-quote stripping differs between the resolvers and the extractor: {forms}")
+
+
+from ..core import guard_rules  # noqa: E402
+
+guard_rules(globals())
